@@ -33,6 +33,8 @@ def make_datasets(fedjax, sizes, variant, chain, bad=0, bad_kind='preprocessor')
     if bad and ci + 1 == bad:
       if bad_kind == 'preprocessor':
         p = fedjax.BatchPreprocessor(bat.CHAINS[chain])  # equal but not identical object
+      elif bad_kind == 'missing':
+        raw = {k_: v_ for k_, v_ in raw.items() if k_ != 'x'}     # a strict subset of the other clients' features
       else:
         raw = dict(raw)
         raw['extra'] = np.zeros((n,), np.int32)
@@ -267,7 +269,7 @@ def run(ctx):
                'holds': all(bt[3] for bt in batches)})
     ctx.case(key=('bsb', tuple(sizes), bs, b, seed), nontrivial=b < total)
   # mismatch rejection in the shuffled variant
-  for bad_kind in ('preprocessor', 'features'):
+  for bad_kind in ('preprocessor', 'features', 'missing'):
     for bad in (2, 3):
       dss, _, _ = make_datasets(fedjax, [2, 3, 2], 'A', 1, bad, bad_kind)
       try:
@@ -275,6 +277,9 @@ def run(ctx):
         ok = False
       except ValueError:
         ok = True
+      except Exception as ex_:  # pylint: disable=broad-except
+        ok = False               # (accepted at first and failing later with another error is not a rejection)
+        bad_kind = f'{bad_kind} ({type(ex_).__name__})'
       ph.append({'e': 'Fact', 'name': 'ShuffledMismatchRejected', 'about': f'{bad_kind}@{bad}', 'holds': ok})
   # shuffle_repeat_batch_federated_data: seeded reproducibility and weak conservation over the first pass
   for _ in range(60 if big else 14):
@@ -377,9 +382,35 @@ def run(ctx):
       dec = (lambda v: ord(v) - 64) if kind == 'str' else int
       it = fdm.RepeatableIterator(base)
       ev = []
-      for _ in range(3):
-        for v in it:
-          ev.append({'e': 'Item', 'v': dec(v)})
+      for pi in range(3):
+        # a pass is read in one for loop, or in pieces (each islice / loop resumption calls iter() on it again)
+        style = (length + pi + len(kind)) % 3
+        if style == 0:
+          for v in it:
+            ev.append({'e': 'Item', 'v': dec(v)})
+        elif style == 1:
+          while True:
+            piece = list(itertools.islice(it, 3))
+            for v in piece:
+              ev.append({'e': 'Item', 'v': dec(v)})
+            if len(piece) < 3:
+              break
+            if len(ev) > 200:
+              break
+        else:
+          n_seen = 0
+          while n_seen <= 200:
+            got_one = False
+            for v in it:           # resumed after every second item
+              ev.append({'e': 'Item', 'v': dec(v)})
+              n_seen += 1
+              got_one = True
+              if n_seen % 2 == 0:
+                break
+            else:
+              break
+            if not got_one:
+              break
         ev.append({'e': 'Stop'})
       ev.append({'e': 'End'})
       rtrs.append({'len': length, 'container': kind in ('list', 'tuple', 'dict', 'str', 'bytes'), 'events': ev, 'meta': {'base': kind}})
